@@ -16,7 +16,7 @@ const (
 var StrategyNames = [...]string{"uniform", "run-length", "hold-at-block", "priority"}
 
 // blockingKinds are yield kinds whose next operation may park the task.
-var blockingKinds = map[string]bool{"select": true, "recv": true, "wait": true}
+var blockingKinds = map[string]bool{"select": true, "recv": true, "wait": true, "send": true}
 
 // RapidChooser draws every scheduling decision from rapid.
 type RapidChooser struct {
